@@ -35,6 +35,12 @@ pub struct Snap {
     pub typeid_ok: bool,
     pub layout_ok: bool,
     pub is_empty: bool,
+    /// `as_bytes()`: address, length, and whether its bytes equal the typed slice's bytes
+    pub bytes_base: usize,
+    pub bytes_len: usize,
+    pub bytes_eq: bool,
+    /// storage pointer modulo the element alignment
+    pub misalign: usize,
 }
 
 pub trait DynRig {
